@@ -279,3 +279,18 @@ CHECKS["C10"] = dict(
     jobs=[dict(name="bubble", pkg="./tun", go=GO126, test="TestC10B", shards=(4, 16), checks=(2000, 25000), timeout=(600, 3000)),
           dict(name="race", pkg="./tun", go=GO, test="TestC10R", race=True, shards=(4, 16), checks=(60, 1000), timeout=(600, 3000))],
 )
+
+CHECKS["C05"] = dict(
+    rule=("rapid-drawn histories of the composed system: real client x reference gateway (accepts the expected number, re-acknowledges the "
+          "previous one, ignores others, repeats its own requests 2..5 times) x network with one fate per datagram and direction "
+          "(deliver after a delay around 0, r/2, r, 2r; lose; duplicate with a second delay), 0..6 telegrams per direction (5% of the "
+          "plans 258..320 so that the numbering wraps), fast and absent readers; fake clock. Non-trivial = history with a client "
+          "retransmission, or loss and duplication, or the wrap; distinct by plan."),
+    level_text=("Sampled paths of the composed system with the real modulus 256 on a fake clock; history invariants: nothing is put on the "
+                "bus twice, every successful Send is on the bus exactly once and in completion order, every telegram the gateway got "
+                "acknowledged was read exactly once and in the gateway's order."),
+    level_note="Trusted: the reference gateway and network in harness/tun/refgw_test.go. The quantifier's exhaustive exploration of every reachable state for modulus 4 is model checking, which this technique family does not do: paths are sampled.",
+    technique="rapid stateful generation of network fate streams against a reference gateway under testing/synctest virtual time; exactly-once / order invariants over the history",
+    assumptions=_TUN_ASSUME + ["every Send call carries its own telegram (a retry after a failed Send is a new telegram)"],
+    jobs=[dict(name="bubble", pkg="./tun", go=GO126, test="TestC05B", shards=(4, 16), checks=(1500, 25000), timeout=(600, 3000))],
+)
